@@ -32,6 +32,8 @@ type zzOp struct {
 	Tag    string
 	Force  bool
 	DryRun bool
+	Cancel bool // the request's context is cancelled by a separate thread at an arbitrary moment
+	ctx    context.Context
 }
 
 type zzOpRes struct {
@@ -47,6 +49,9 @@ const zzSendMetaScript = "vars {\naccount $s = meta(@cfg, \"src\")\nmonetary $m\
 
 func zzDo(w *zzWorld, op zzOp) (*ledger.Transaction, error) {
 	p := Parameters{IdempotencyKey: op.IK, DryRun: op.DryRun}
+	if op.ctx != nil {
+		w = &zzWorld{store: w.store, monitor: w.monitor, commander: w.commander, ctx: op.ctx}
+	}
 	switch op.Kind {
 	case zzKCreateScript:
 		var rs ledger.RunScript
@@ -98,7 +103,7 @@ func zzLogTag(l *ledger.ChainedLog) string {
 
 func zzCountTag(st *zzStore, tag string) int {
 	n := 0
-	for _, l := range st.Logs()[1:] {
+	for _, l := range st.Logs() { // the preloaded tail (if any) carries no tag
 		if zzLogTag(l) == tag {
 			n++
 		}
@@ -113,6 +118,11 @@ func zzRunClients(w *zzWorld, ops []zzOp, gen string) []zzOpRes {
 		i := i
 		if ops[i].Kind == zzKRevert && ops[i].Tag != "same" {
 			ops[i].Tag = "revert" // the marker a revert leaves in its log
+		}
+		if ops[i].Cancel {
+			var cancel context.CancelFunc
+			ops[i].ctx, cancel = context.WithCancel(w.ctx)
+			verifhook.Go(fmt.Sprintf("x%d%s", i, gen), func() { cancel() })
 		}
 		verifhook.Go(fmt.Sprintf("c%d%s", i, gen), func() {
 			tx, err := zzDo(w, ops[i])
@@ -171,7 +181,7 @@ func zzCheckChain(st *zzStore, L, N *big.Int, prop string) {
 
 // ---------- C02 ----------
 
-var zzC02Shapes = [][]string{{"", ""}, {"var", "var"}, {"meta", "meta"}, {"", "meta"}, {"var", ""}}
+var zzC02Shapes = [][]string{{"", ""}, {"var", "var"}, {"meta", "meta"}, {"", "meta"}, {"var", ""}, {"cancel", ""}, {"cancel", "cancel"}}
 
 func ZZ_C02N() int { return len(zzC02Shapes) }
 
@@ -189,6 +199,10 @@ func ZZ_C02(shape int) {
 		a := verifhook.BigInt(fmt.Sprintf("amt%d", i))
 		verifhook.Assume(a.Sign() > 0)
 		ops[i] = zzOp{Kind: zzKCreateScript, Amt: a, Src: s, Tag: fmt.Sprintf("t%d", i)}
+		if s == "cancel" {
+			// the client gives up at an arbitrary moment (disconnect, timeout)
+			ops[i].Src, ops[i].Cancel = "", true
+		}
 	}
 	zzRunClients(w, ops, "")
 	verifhook.Reach("quiescent")
@@ -237,7 +251,11 @@ var zzC05Shapes = [][]int{
 	{zzKCreateScript, zzKRevert},
 	{zzKSetAccountMeta, zzKDeleteAccountMeta},
 	{zzKCreateScript, zzKCreateScript, zzKCreateScript},
+	{zzKCreateCancel, zzKCreateScript},
+	{zzKCreateCancel, zzKSetAccountMeta},
 }
+
+const zzKCreateCancel = 102 // create whose client gives up (context cancelled) at an arbitrary moment
 
 func ZZ_C05N() int { return len(zzC05Shapes) }
 
@@ -246,6 +264,10 @@ func ZZ_C05Desc(i int) string {
 	for _, k := range zzC05Shapes[i] {
 		if k == zzKCreateWorld {
 			s += " create(from world)"
+			continue
+		}
+		if k == zzKCreateCancel {
+			s += " create(client gives up at an arbitrary moment)"
 			continue
 		}
 		s += " " + zzKindNames[k]
@@ -262,6 +284,9 @@ func ZZ_C05(shape int) {
 		ops[i] = zzOp{Kind: k, Amt: zzPosAmt(fmt.Sprintf("amt%d", i)), Target: N, Tag: fmt.Sprintf("t%d", i)}
 		if k == zzKCreateWorld {
 			ops[i].Kind, ops[i].Src = zzKCreateScript, "world"
+		}
+		if k == zzKCreateCancel {
+			ops[i].Kind, ops[i].Cancel = zzKCreateScript, true
 		}
 	}
 	zzRunClients(w, ops, "")
@@ -319,6 +344,9 @@ func ZZ_C06(shape int) {
 		if k == zzKCreateWorld {
 			ops[i].Kind, ops[i].Src = zzKCreateScript, "world"
 		}
+		if k == zzKCreateCancel {
+			ops[i].Kind, ops[i].Cancel = zzKCreateScript, true
+		}
 	}
 	res := zzRunClients(w, ops, "")
 	verifhook.Reach("quiescent")
@@ -363,13 +391,22 @@ var zzC07Shapes = [][]int{
 	{zzKSetAccountMeta, zzKSetAccountMeta},
 	{zzKCreateScript, zzKSetAccountMeta},
 	{zzKRevert, zzKRevert},
+	// plus a third request without a key whose transaction *reference* equals the key
+	{zzKCreateScript, zzKCreateScript, zzKInterferer},
+	{zzKSetAccountMeta, zzKSetAccountMeta, zzKInterferer},
 }
+
+const zzKInterferer = 101
 
 func ZZ_C07N() int { return len(zzC07Shapes) }
 
 func ZZ_C07Desc(i int) string {
 	s := "same idempotency key, concurrent then retried after restart:"
 	for _, k := range zzC07Shapes[i] {
+		if k == zzKInterferer {
+			s += " + a create without a key whose reference equals the key"
+			continue
+		}
 		s += " " + zzKindNames[k]
 	}
 	return s
@@ -383,6 +420,9 @@ func ZZ_C07(shape int) {
 	ops := make([]zzOp, len(kinds))
 	for i, k := range kinds {
 		ops[i] = zzOp{Kind: k, Amt: amt, Target: N, IK: "the-key", Tag: "same"}
+		if k == zzKInterferer {
+			ops[i] = zzOp{Kind: zzKCreateScript, Amt: zzPosAmt("amt_other"), Ref: "the-key", Tag: "other"}
+		}
 	}
 	res := zzRunClients(w, ops, "")
 	verifhook.Reach("quiescent")
@@ -397,9 +437,12 @@ func ZZ_C07(shape int) {
 		}
 	}
 	verifhook.Assert(withKey <= 1, "C07 more than one write took effect under one idempotency key")
-	verifhook.Assert(len(w.store.Logs())-1 <= 1, "C07 duplicates of one request produced more than one log entry")
+	verifhook.Assert(zzCountTag(w.store, "same") <= 1, "C07 duplicates of one request produced more than one log entry")
 	var first *ledger.Transaction
-	for _, r := range append(res, res2...) {
+	for i, r := range append(res, res2...) {
+		if i < len(ops) && ops[i].Tag != "same" {
+			continue
+		}
 		if r.returned && r.err == nil && r.tx != nil {
 			if first == nil {
 				first = r.tx
@@ -600,5 +643,91 @@ func ZZ_C08Cache(shape int) {
 		}
 	}
 	verifhook.Reach("second-round")
+	verifhook.Canary()
+}
+
+// ---------- C05 from an empty ledger ----------
+
+// each inner list is a stage (its writes run concurrently); between stages the process
+// stops (or crashes) and a new commander starts on the same store
+var zzC05FreshShapes = [][][]int{
+	{{zzKSetAccountMeta}, {zzKSetAccountMeta}},
+	{{zzKSetAccountMeta}, {zzKCreateWorld}},
+	{{zzKCreateWorld}, {zzKSetAccountMeta}, {zzKCreateWorld}},
+	{{zzKDeleteAccountMeta}, {zzKSetAccountMeta, zzKCreateWorld}},
+	{{zzKCreateWorld, zzKCreateWorld}, {zzKCreateWorld}},
+	{{zzKSetAccountMeta, zzKDeleteAccountMeta}, {zzKSetAccountMeta}, {zzKCreateWorld}},
+}
+
+func ZZ_C05FreshN() int { return len(zzC05FreshShapes) }
+
+func ZZ_C05FreshDesc(i int) string {
+	s := "from an empty ledger:"
+	for si, st := range zzC05FreshShapes[i] {
+		if si > 0 {
+			s += " | restart |"
+		}
+		for _, k := range st {
+			if k == zzKCreateWorld {
+				s += " create(from world)"
+			} else {
+				s += " " + zzKindNames[k]
+			}
+		}
+	}
+	return s
+}
+
+// zzCheckChainFromZero: ids 0.. in insertion order, the first entry chained on nothing,
+// transaction ids 0.. in log order.
+func zzCheckChainFromZero(st *zzStore, prop string) {
+	logs := st.Logs()
+	nextTx := big.NewInt(0)
+	for i := range logs {
+		verifhook.Assert(verifhook.Eq(logs[i].ID, big.NewInt(int64(i))), prop+" log ids are consecutive from 0 in insertion order")
+		again := *logs[i]
+		again.ID = big.NewInt(0)
+		again.Hash = nil
+		var prev *ledger.ChainedLog
+		if i > 0 {
+			prev = logs[i-1]
+		}
+		again.ComputeHash(prev)
+		verifhook.Assert(bytes.Equal(again.Hash, logs[i].Hash), prop+" each hash is the digest of the previous hash and the entry")
+		var txid *big.Int
+		switch p := logs[i].Data.(type) {
+		case ledger.NewTransactionLogPayload:
+			txid = p.Transaction.ID
+		case ledger.RevertedTransactionLogPayload:
+			txid = p.RevertTransaction.ID
+		}
+		if txid != nil {
+			verifhook.Assert(verifhook.Eq(txid, nextTx), prop+" transaction ids increase by one from 0 in log order")
+			nextTx = new(big.Int).Add(nextTx, big.NewInt(1))
+		}
+	}
+}
+
+// ZZ_C05Fresh: the chain law on a ledger that starts empty and is restarted between
+// writes, including while it holds no transaction yet.
+func ZZ_C05Fresh(shape int) {
+	stages := zzC05FreshShapes[shape]
+	st := zzNewStore()
+	w := zzStart(st, NewDefaultLocker())
+	for si, kinds := range stages {
+		if si > 0 {
+			w = zzRestart(w)
+		}
+		ops := make([]zzOp, len(kinds))
+		for i, k := range kinds {
+			ops[i] = zzOp{Kind: k, Amt: zzPosAmt(fmt.Sprintf("amt%d_%d", si, i)), Tag: fmt.Sprintf("t%d_%d", si, i)}
+			if k == zzKCreateWorld {
+				ops[i].Kind, ops[i].Src = zzKCreateScript, "world"
+			}
+		}
+		zzRunClients(w, ops, fmt.Sprintf("s%d", si))
+		zzCheckChainFromZero(st, fmt.Sprintf("C05 (stage %d)", si))
+	}
+	verifhook.Reach("all-stages")
 	verifhook.Canary()
 }
